@@ -398,7 +398,7 @@ func compareTS(a simenv.AggReq, got []tsBin, docs []*model.Doc) string {
 			if (a.Field != "big" && g.Sum != wb.Sum) || g.Min != wb.Min || g.Max != wb.Max {
 				return fmt.Sprintf("cell %q@%d sum/min/max %v/%v/%v, model %v/%v/%v", g.Tok, g.MID, g.Sum, g.Min, g.Max, wb.Sum, wb.Min, wb.Max)
 			}
-			if a.Func == "quantile" && len(wb.Samples) <= seq.VerifMaxHistogramSamples() {
+			if needsSamples(a) && len(wb.Samples) <= seq.VerifMaxHistogramSamples() {
 				gs := append([]float64(nil), g.Samples...)
 				sort.Float64s(gs)
 				if len(gs) != len(wb.Samples) {
@@ -429,6 +429,20 @@ func compareTS(a simenv.AggReq, got []tsBin, docs []*model.Doc) string {
 		return fmt.Sprintf("cell %q@%d missing (model total %d) for interval %d", c.tok, c.mid, wantCells[c].Total, iv)
 	}
 	return ""
+}
+
+// needsSamples: the values themselves are only kept (and compared) for a quantile strictly inside (0,1);
+// 0 and 1 are answered from the minimum and the maximum.
+func needsSamples(a simenv.AggReq) bool {
+	if a.Func != "quantile" {
+		return false
+	}
+	for _, q := range a.Quantiles {
+		if q > 0 && q < 1 {
+			return true
+		}
+	}
+	return false
 }
 
 // checkAgg compares one returned aggregation with the model over the matching documents.
@@ -465,7 +479,7 @@ func compareAgg(a simenv.AggReq, got *pb.SearchResponse_Agg, want *model.AggExpe
 			if (a.Field != "big" && gb.Sum != wb.Sum) || gb.Min != wb.Min || gb.Max != wb.Max {
 				return fmt.Sprintf("bin %q sum/min/max %v/%v/%v, model %v/%v/%v", k, gb.Sum, gb.Min, gb.Max, wb.Sum, wb.Min, wb.Max)
 			}
-			if a.Func == "quantile" && len(wb.Samples) <= seq.VerifMaxHistogramSamples() {
+			if needsSamples(a) && len(wb.Samples) <= seq.VerifMaxHistogramSamples() {
 				gs := append([]float64(nil), gb.Samples...)
 				sort.Float64s(gs)
 				if len(gs) != len(wb.Samples) {
